@@ -20,15 +20,22 @@ ASSUMPTIONS = ["the code is checked as repaired by fixes/C12-*.diff (reverse, co
                "evaluators/tessellators are outside the property's list of edits",
                "sampled points / tessellation are only read while the definition is consistent (knot vector valid for degree and size)",
                "zero weights, ragged point lists and sample sizes < 2 are not generated; floating point rounding below 1e-9 is not observable"]
-THEOREM_NOTES = ("coq/Props/C12.v: Inv_init, Inv_step, Inv_reachable [G] for arbitrary view functions and operation lists (geometries: all "
-                 "operations; world with containers: all operations that do not edit an element behind a container's back), read_equals_fresh [G], "
-                 "deepcopy_independent [G] (frame property + fresh, pairwise distinct provenance ids), container_alias_refuted (witness)")
+THEOREM_NOTES = ("coq/Props/C12.v, all for ARBITRARY view functions (sampled points, bounding box, tessellation are Section variables) and any "
+                 "scalar type: C12_Inv_init, C12_Inv_step (every geometry operation), C12_Inv_step_world (every world operation incl. containers "
+                 "and deep copies), C12_Inv_reachable (fold over any operation list) [G]; C12_read_equals_fresh [G]; C12_container_Inv_step / "
+                 "_reachable and C12_container_read_equals_fresh [G under the side condition ObjR.safe = no edit of a geometry behind the back of "
+                 "another container with a filled cache]; C12_deepcopy_independent and C12_ids_disjoint_reachable [G, provenance ids of the "
+                 "definition slots]; C12_pinned_reverse_refuted and C12_container_alias_refuted (witnesses on the executable instance). "
+                 "Not covered by a theorem: the container's vertices/faces cache (only correspondence + oracle)")
 LEVEL_TEXT = ("Coq theorems [G] about the Gallina state-machine model Model/Obj.v of the repaired cache discipline, for arbitrary view functions "
-              "(sampled points, bounding box, tessellation are Section variables): every cache is empty or equals its view of the current "
-              "definition after any list of operations, every reader returns what a freshly built object returns, deep copies have fresh "
-              "pairwise distinct provenance ids and operations on one object leave all others unchanged; the container-aliasing finding is "
-              "stated as a refutation witness and excluded by a side condition. The model (run with executable view functions) is tied to "
-              "/repo by random-history correspondence evaluated in Coq; the property itself is checked by a fresh-object oracle on every prefix")
+              "(sampled points, bounding box, tessellation are Section variables): every cache of every geometry is empty or equals its view of "
+              "the current definition after ANY list of operations (geometry edits, container operations, deep copies); every getter returns what "
+              "a freshly built object with the same definition returns; container sampled-points caches likewise under an explicit side condition "
+              "that excludes the recorded finding (editing an element behind a container's back; refutation witness proved); deep copies have "
+              "fresh provenance ids, no two geometries ever share a definition slot, operations on one object leave all others unchanged. "
+              "The model, run with executable view functions, is tied to /repo by random-history correspondence evaluated in Coq (every step: "
+              "outcome, all views of the touched objects, in-place vs rebinding of the definition slots); the property itself is checked on every "
+              "prefix of every history by a fresh-object oracle with history shrinking")
 TECHNIQUE = "machine-checked proof in Coq over a hand-written Gallina state-machine model + model/implementation correspondence on random histories evaluated by coqc (vm_compute) + fresh-object oracle with history shrinking"
 
 KEEPALIVE = []       # objects whose id() was recorded must stay alive
